@@ -35,6 +35,7 @@ def creation_time():
                 return [(st, E.VInt(EPOCH))]
             return [(st, E.VInt(LOCAL))]
         ex.hooks[('ext', 'calendar.timegm')] = timegm
+        scn.local_zone_reading(ex)
         for pi, (s, v) in enumerate(r.call(E.VObj(cls, 'sp'), [])):
             paths += 1
             if isinstance(v, E.Raise):
